@@ -5,6 +5,7 @@
 //   - functions are called through the real xfn.PackagedFunctionRunner over gRPC: "fn1" is served by an in-process
 //     server that speaks apiextensions.fn.proto.v1, "fn2" by one that only speaks v1beta1 (so every pipeline also
 //     exercises the runner's v1 -> v1beta1 fallback, for responses and for errors).
+//
 // Added after the seeded changes C01-m6 / C04-m6 (observer wired with the cache twice) and C03-m5 (the fallback client
 // loses the RPC error) were missed by a driver that had a hand-written copy of the wiring and an in-process runner.
 package main
@@ -216,4 +217,3 @@ func (w *world) buildReconciler() reconcile.Reconciler {
 	})
 	return rec
 }
-
